@@ -602,8 +602,11 @@ def checkImage (img : ByteArray) (pageSize : Nat) (specs : List TableSpec) : Exc
       fail "decode" s!"page 0: page size field {h.layout.pageSize}, expected {pageSize}"
     else if h.layout.regionMaxDataPages == 0 || h.layout.numRegions == 0 then
       fail "decode" "page 0: empty region layout"
-    else if h.layout.fileLen != img.size then
-      fail "decode" s!"page 0: layout describes {h.layout.fileLen} bytes, file has {img.size}"
+    -- the file may be longer than the layout of the served commit (space appended after that
+    -- commit - e.g. by its post-commit epilogue - reaches the header with the next commit); it may
+    -- never be shorter
+    else if img.size < h.layout.fileLen then
+      fail "decode" s!"page 0: layout describes {h.layout.fileLen} bytes, file has only {img.size}"
     else if !(slotChecksumOk h.primary) then
       fail "slot-checksum" s!"page 0: primary slot {h.primarySlot}"
     else match decodeSlot h.primary with
